@@ -132,7 +132,13 @@ class Ctx:
 
     def build_model(self):
         with BuildLock():
-            ok, out = self.coq_make(["all"])
+            # only the model files (everything extraction needs); proofs are built by each property's own gate
+            targets = []
+            for line in open(os.path.join(COQ, "_CoqProject")):
+                line = line.strip()
+                if line.endswith(".v") and not line.startswith("Proofs/") and not line.startswith("Props/"):
+                    targets.append(line[:-2] + ".vo")
+            ok, out = self.coq_make(targets)
             if not ok:
                 return False
             stamp = os.path.join(BUILD, ".vmodel.stamp")
